@@ -8,6 +8,8 @@ def main():
         bad = core.forbidden_scan()
         if bad:
             print("forbidden constructs:", bad)
+        import subprocess, sys as _s
+        subprocess.run([_s.executable, core.VERIF + '/tools/rs2v/cmdtables.py'])
         core.coq_makefile()
         rc, out = core.sh(["timeout", "7000", "make", "-j%d" % core.NCPU], cwd=core.COQ, timeout=7100)
         print(out[-3000:])
